@@ -5,6 +5,7 @@ import itertools, math
 import c03, c08, c09, tomo_lib
 
 TOMO_TYPE = c08.TOMO_TYPE
+qenv.install_all(["quara.data_analysis.data_analysis"])
 PMIN = 1e-3
 
 
@@ -302,6 +303,45 @@ def ob_helpers(n):
     return FnOb(reals("a", n, -3.0, 3.0) + reals("b", n, -3.0, 3.0) + reals("q", n, 0.0, 1.0), run, expect_nonlinear=True)
 
 
+def ob_data_analysis(typ, m):
+    """data_analysis helpers used to compare simulated with analytical errors: calc_mse_qoperations == mean squared distance of the
+    objects' FULL (stacked) parameter vectors, whatever the parametrisation flag; covariance helpers == (diag p - p p^T)/N and their
+    direct sum"""
+    ns = c03.n_stacked(typ, 2, m)
+
+    def run(I):
+        import quara.data_analysis.data_analysis as DA
+        c = qenv.csys("Q1")
+        out = []
+        for flag in (True, False):
+            nv = c03.n_var(typ, 2, m, flag)
+            tmpl = c03.make_obj(typ, c, (SymNd([0.0] * ns) if core.CTX.active else np.zeros(ns)), m, flag)
+            objs = [tmpl.generate_from_var(vec_of(I, f"a{k}_", nv)) for k in range(2)]
+            truth = tmpl.generate_from_var(vec_of(I, "t", nv))
+            got = DA.calc_mse_qoperations(objs, [truth, truth], with_std=False)
+            ref = 0
+            for o in objs:
+                for u, v in zip(flat(o.to_stacked_vector()), flat(truth.to_stacked_vector())):
+                    ref = ref + (u - v) * (u - v)
+            out.append(Eq(f"[flag={flag}] calc_mse_qoperations == mean squared distance of the stacked vectors", got, ref / 2, 1e-8))
+        q = vec_of(I, "q", 3)
+        cov = DA.calc_covariance_matrix_of_prob_dist(q, 7)
+        ql = list(flat(q))
+        exp = np.zeros((3, 3), dtype=object)
+        for i in range(3):
+            for j in range(3):
+                exp[i, j] = ((ql[i] if i == j else 0.0) - ql[i] * ql[j]) / 7
+        out.append(Eq("calc_covariance_matrix_of_prob_dist == (diag q - q q^T)/N", cov, exp, 1e-9))
+        tot = DA.calc_covariance_matrix_of_prob_dists([q, q], 7)
+        blk = np.zeros((6, 6), dtype=object)
+        blk[:3, :3] = exp
+        blk[3:, 3:] = exp
+        out.append(Eq("calc_covariance_matrix_of_prob_dists == direct sum", tot, blk, 1e-9))
+        return out
+    nvmax = c03.n_var(typ, 2, m, False)
+    return FnOb(reals("a0_", nvmax, -1.0, 1.0) + reals("a1_", nvmax, -1.0, 1.0) + reals("t", nvmax, -1.0, 1.0) + reals("q", 3, 0.0, 1.0), run, expect_nonlinear=True)
+
+
 def obligations(tier):
     out = []
     for tomo, m in [("qst", 0), ("povmt", 2)] + tiers(tier, [], [("povmt", 3)]):
@@ -321,6 +361,7 @@ def obligations(tier):
             out += specs("C19.cov", [{"tomo": tomo, "m": m, "flag": flag, "N": 2, "testers": "mixed"}], ob_cov, 3)
             out += specs("C19.mse_linear", [{"tomo": tomo, "m": m, "flag": flag, "N": 1, "mode": md, "testers": "mixed"} for md in ("var", "qoperation")], ob_mse_linear, 10)
     out += specs("C19.helpers", [{"n": n} for n in (2, 3)], ob_helpers, 1)
+    out += specs("C19.data_analysis", [{"typ": "state", "m": 0}, {"typ": "povm", "m": 3}] + tiers(tier, [], [{"typ": "mprocess", "m": 2}]), ob_data_analysis, 2)
     return out
 
 
